@@ -139,6 +139,19 @@ CHECKS['C13'] = dict(
     technique='symbolic execution of the Python source with symbol-valued file literals + Z3 per path; structures enumerated',
 )
 
+CHECKS['C02'] = dict(
+    level='translation_validation',
+    text='Translation validation of the port against the vendored reference modern_robotics 1.1.1: both sources are loaded by '
+         'the same loader and executed on the SAME symbolic arguments in one path (list of shared functions computed at run '
+         'time from the two ASTs); obligations: the port raises nowhere the reference returns, same shape, equal values - '
+         'decided by normal form + Z3 over all real arguments of the stated families (rigid-body algebra fully symbolic incl. '
+         'the half-turn and cut-off branches; FK/Jacobians; dynamics with symbolic state on the book chain; time scalings; '
+         'trajectories). Iterative IK: symbolic capped-step bisimulation in the thorough tier, concrete differential sampling in '
+         'the quick tier (success => tolerances met; same solution when both converge).',
+    design='5/C02',
+    technique='product-program symbolic execution of port and reference on shared symbolic inputs + Z3 per path',
+)
+
 NOT_APPLICABLE = {
 }
 
